@@ -64,6 +64,8 @@ def scenarios(quick: bool) -> List[Tuple[Scenario, str]]:
         (Scenario("f-delete", [A("c1", "committer", [{"t": "delete", "refs": [("init", 1)]}, {"t": "append"}])]), "c1"),
         (Scenario("f-expire", [A("c1", "committer", [{"t": "expire", "cutoff": 8}, {"t": "append"}])]), "c1"),
         (Scenario("f-delsnap", [A("c1", "committer", [{"t": "delsnap", "who": ("init", 2)}, {"t": "append"}])]), "c1"),
+        # object storage with conditional writes: a request may fail AFTER it took effect (ambiguous pointer write)
+        (Scenario("f-append-s3cas", [A("c1", "committer", [{"t": "append"}, {"t": "append"}])], backend="s3cas"), "c1"),
     ]
     if not quick:
         s += [
@@ -84,7 +86,8 @@ def run(ctx: Ctx) -> None:
         batches = []
         for scn, victim in scenarios(quick):
             steps = l1.solo_steps(scn)
-            jobs = [("list", s_) for s_ in l1.fault_schedules(scn, steps, victim, kinds, stride=1)]
+            kk = kinds + ([("after", "oserror")] if scn.backend != "local" else [])
+            jobs = [("list", s_) for s_ in l1.fault_schedules(scn, steps, victim, kk, stride=1)]
             if len(scn.actors) > 1:
                 # the victim is paused/failed while the others run first, or after
                 r = rng(ctx.seed, scn.name)
@@ -100,6 +103,9 @@ def run(ctx: Ctx) -> None:
             for t in traces:
                 if t.get("harness_error"):
                     raise MachineryError(f"execution of {scn.name} failed in the harness: {t['harness_error']}")
+            # the model places "the request took effect, the client saw an error" at the pointer write only (elsewhere it is
+            # indistinguishable from a failure of the next request as far as leftovers are concerned)
+            traces = [t for t in traces if not any(e["k"] == "Fault" and e.get("when") == "after" and not (e.get("cls") == "hint" and e.get("op") in ("write_file", "write_file_cas")) for e in t["events"])]
             n_fault = sum(1 for t in traces if any(e["k"] == "Fault" for e in t["events"]))
             ctx.cov["faults_delivered"] = ctx.cov.get("faults_delivered", 0) + n_fault
             for lo in range(0, len(traces), 120):
